@@ -431,6 +431,56 @@ PROV_SPACES = [("grid", [0, 1, 1], 2), ("grid", [0, 1, 2], 3), ("graph", [0, 1, 
                ("grid", [1], 2), ("graph", [1], 2)]
 
 
+DICT_ROUTES = ["dict-generated", "dict-inline", "dict-txt-blanks", "dict-txt-commas", "dict-npy"]
+
+
+def system_dict(spec):
+    """The description of `spec` as a dictionary for rdsystem_from_dict (default units), without the chemostat map."""
+    sp = spec["space"]
+    if sp["type"] == "grid":
+        space = {"type": "grid", "w": sp["w"], "h": sp["h"], "d": sp["d"], "cell_env": list(ratelaw.cell_env(sp)),
+                 "cell_volume": sp.get("vol", 1.0), "boundary_conditions": dict(sp.get("bc", {}))}
+    else:
+        space = {"type": "graph", "nodes": [{"volume": nd["vol"], "environment": nd["env"]} for nd in sp["nodes"]],
+                 "edges": [{"nodes": [e[0], e[1]], "surface": e[2], "distance": e[3]} for e in sp["edges"]]}
+    return {"network": {"species": [{"label": x["label"], "D": x["D"], "chstt": x.get("chstt", False)} for x in spec["species"]],
+                        "reactions": [{"eq": models.eq_string(r["eq"]), "k+": r["kf"], "k-": r["kr"]} for r in spec["reactions"]],
+                        "environments": list(spec["envs"])},
+            "space": space, "state": [float(v) for v in spec["state"]]}
+
+
+def build_by_route(spec, route):
+    """setting_up_initial_conditions.rst: "chemostats" : [1, 0] in the system description; json_and_dict_doc.rst: "array of
+    chemostats (0=false, 1=true)" or "path to a file containing the array of chemostats"."""
+    import os
+    import shutil
+    import tempfile
+    import numpy as np
+    from strengths.rdsystem import rdsystem_from_dict
+    d = system_dict(spec)
+    m = spec.get("chemostats")
+    tmp = None
+    try:
+        if m is not None:
+            if route == "dict-inline":
+                d["chemostats"] = [int(v) for v in m]
+            else:
+                tmp = tempfile.mkdtemp(dir="/var/tmp", prefix="c03-")
+                if route == "dict-npy":
+                    path = os.path.join(tmp, "chemostats.npy")
+                    np.save(path, np.array(m, dtype=int))
+                else:
+                    path = os.path.join(tmp, "chemostats.txt")
+                    with open(path, "w") as fh:
+                        fh.write(" ".join(str(int(v)) for v in m) if route == "dict-txt-blanks"
+                                 else ",\n".join(str(int(v)) for v in m) + "\n")
+                d["chemostats"] = path
+        return rdsystem_from_dict(d)
+    finally:
+        if tmp is not None:
+            shutil.rmtree(tmp, ignore_errors=True)
+
+
 def doc_flag(chstt, envlabel):
     if isinstance(chstt, dict):
         if envlabel in chstt:
@@ -503,6 +553,17 @@ def gen_prov(tier, seed0):
                         spec["chemostats"] = explicit
                     yield {"prov": True, "mode": mode, "shape": [2, nc], "gtype": gtype, "net": netname, "spec": spec, "ops": ops,
                            "chstt": [CHSTT_FORMS[i], CHSTT_FORMS[j]], "seeds": seeds}
+                # the description read by rdsystem_from_dict: the map written inline, in a text file (blank / comma+newline
+                # separated 0 and 1), in a .npy file, or left to the species flags
+                if (i, j) in sub and (tier == "thorough" or (i + si) % 3 == 0):
+                    alt = [[(q + k) % 2 for q in range(n)] for k in (0, 1)]
+                    for route in DICT_ROUTES:
+                        for k, m in enumerate(alt if route != "dict-generated" else [None]):
+                            spec = dict(spec0)
+                            if m is not None:
+                                spec["chemostats"] = m
+                            yield {"prov": True, "mode": route, "route": route, "shape": [2, nc], "gtype": gtype, "net": netname,
+                                   "spec": spec, "ops": [], "chstt": [CHSTT_FORMS[i], CHSTT_FORMS[j]], "seeds": seeds}
 
 
 def check_prov(case):
@@ -515,7 +576,7 @@ def check_prov(case):
     how = "species chstt %r, cell environments %r, %s map%s" % (case["chstt"], ratelaw.cell_env(spec["space"]), case["mode"],
                                                              (" %r" % (case["ops"],)) if case["ops"] else "")
     try:
-        system = models.build_system(spec)
+        system = build_by_route(spec, case["route"]) if case.get("route") else models.build_system(spec)
         for op in case["ops"]:
             if op[0] == "set":
                 system.set_chemostat(op[1] if op[2] % 2 == 0 else spec["species"][op[1]]["label"], op[2], op[3])
@@ -862,7 +923,9 @@ def run(ctx):
                  "cell / node in environment b; Species.chstt of each species in {False, True, {a:T,b:F}, {b:T}, {a:F,default:T}, "
                  "{a:T,b:F,default:T}} (all 36 pairs); map in effect: generated by the system; generated then edited with set_chemostat "
                  "against the species flag (each entry in turn, values 0 / 1 / True / 5; all entries); explicit all-zero / complement / "
-                 "rotated map given to RDSystem over truthy species flags; reset_chemostats; explicit then set_default_chemostats "
+                 "rotated map given to RDSystem over truthy species flags; reset_chemostats; explicit then set_default_chemostats; the "
+                 "description read by rdsystem_from_dict with the map left to the species flags / written inline / in a text file "
+                 "(blank or comma+newline separated) / in a .npy file (alternating 0/1 maps) "
                  "(quick: the operations on 6 of the 36 pairs, networks alternate; thorough: everything x 2 networks; unmasked mode on the generated maps): system.chemostats "
                  "vs the documented map, compute_dstatedt (both modes), compute_dspeciesdt per entry, make_dxdtf (single cell), "
                  "apply_reaction, 2 steps of Euler / tau-leap, <= 24 Gillespie events", nprov,
